@@ -8,6 +8,7 @@ import (
 	"verif/internal/diff"
 	"verif/internal/gen"
 	"verif/internal/h"
+	"verif/internal/ref"
 )
 
 var feats = gen.Features{NestedDisj: true, TopDisj: true, Call: true, Cut: true, Ite: true, Neg: true, AllSol: true, Catch: true, Write: true, Lib: true}
@@ -119,6 +120,12 @@ func TestProp(t *testing.T) {
 	r.Rule("a fixed table of hand-written scenarios (ISO 7.8.9/7.8.10 examples, throw after an exited catch, throw after re-entry by backtracking, nesting, balls sharing variables, built-in errors) followed by rapid-generated programs combining catch/3 and throw/1 at nesting depth <= 3 with nondeterministic goals, cut, \\+, once, if-then-else, findall/bagof/setof, built-in errors (type, instantiation, existence), balls that are atoms / compounds sharing variables / unbound, catchers that do or do not unify, recovery goals that throw, write/1 progress markers; dedicated productions for a throw in the continuation of an exited catch and after backtracking into the catch goal. Oracle: the reference machine (catch chains, ball copied at throw time, trail undone to the catch's mark); compared: answer sequence, final error ball up to renaming (context argument of error/2 masked), and the exact text written to user_output. Non-trivial: the reference run raised at least one throw and either caught it or ended with it. Distinct by (program, query).",
 		"the reference machine's catch-chain model (DESIGN.md 2.3.1)",
 		"the context argument of error/2 is implementation defined: masked in answers, left anonymous in generated catchers")
+	if r.Shard() == 0 {
+		if err := diff.OracleSelfTest(); err != nil {
+			t.Fatalf("%v", err)
+		}
+		r.LabelN("oracle_self_test_examples", ref.NExamples())
+	}
 	r.Regress(t)
 	if r.Failed() {
 		return
